@@ -100,6 +100,19 @@ def replay_spec_cases(chk, cases):
                 chk.stratum("range_as_bare_number")
             else:
                 at_arg = U.Foot(r)
+            if (sum(d) + t + h) % 2 == 0:
+                # the same result object was asked other questions first whose arguments LOOK like this one (equal number, equal
+                # raw magnitude) but mean another distance: x inches before the bare number x, the bare number x under another
+                # preferred distance unit, the bare number of its raw inches before a quantity
+                chk.stratum("look_alike_questions_asked_first")
+                if hasattr(at_arg, "raw_value"):
+                    impl.outcome(hr.danger_space, float(at_arg.raw_value), height, U.Degree(0))
+                else:
+                    impl.outcome(hr.danger_space, U.Inch(float(at_arg)), height, U.Degree(0))
+                    impl.outcome(hr.get_at_distance, U.Inch(float(at_arg)))
+                    m.PreferredUnits.distance = U.Meter if pd != U.Meter else U.Yard
+                    impl.outcome(hr.danger_space, at_arg, height, U.Degree(0))
+                    m.PreferredUnits.distance = pd
             o = impl.outcome(hr.danger_space, at_arg, height, U.Degree(0))
             key = {"d": d, "t": t, "h": h, "range": kind, "rising": any(d[i] < d[i + 1] for i in range(n - 1))}
             nontriv = n >= 3 and t > 0
@@ -246,7 +259,7 @@ def run(chk: core.Check, replay=None) -> None:
         info = raw[tid]
         chk.violation(clause, {"source": "real", "rising_branch": info["rising_branch"]}, info)
     chk.sample({"real_call": next(iter(raw.values()))})
-    chk.require_strata(["beyond", "rising", "on_grid", "off_grid", "monotone_pairs", "real_rising", "real_falling", "real_beyond", "rows_redisplayed", "rows_as_built", "real_rows_redisplayed", "asked_under_non_default_preferences", "range_as_bare_number"])
+    chk.require_strata(["beyond", "rising", "on_grid", "off_grid", "monotone_pairs", "real_rising", "real_falling", "real_beyond", "rows_redisplayed", "rows_as_built", "real_rows_redisplayed", "asked_under_non_default_preferences", "range_as_bare_number", "look_alike_questions_asked_first"])
     chk.rule.append(f"every drop sequence of length<=%d over 0..%d x target row x half-height in %s (TLC Gen_DangerSpace), on- and "
                     f"off-grid ranges; plus seeded real extra-data trajectories x targets x heights; non-trivial = >=3 rows and "
                     f"target inside the trajectory" % (maxlen, maxdrop, halves))
